@@ -19,9 +19,17 @@ use crate::{
 };
 
 fn case(t: &mut Tape, info: &mut CaseInfo) -> Result<(), String> {
-    let c = gen_map_case(t, info, &MapProfile::small(ALL_MODES, 40), &DiffProfile::realistic(), true);
+    let mut c = gen_map_case(t, info, &MapProfile::small(ALL_MODES, 40), &DiffProfile::realistic(), true);
     if skip_open_taiko(&c.map, &c.d, c.target, info)? {
         return Ok(());
+    }
+    // a quarter of the calculators is created from a Difficulty that already carries a passed_objects
+    // value: whatever the calculator makes of it, each returned value must still equal the one-shot
+    // calculation with passed_objects(i) for the i objects it reports
+    if t.chance(1, 4) {
+        c.dspec.passed = Some(t.range(0, c.spec.objects.len() as i64 + 2) as u32);
+        c.d = c.dspec.build(c.target);
+        info.label("preset-passed_objects");
     }
     let reference: Vec<DifficultyAttributes> =
         GradualDifficulty::new_with_mode(c.d.clone(), &c.map, c.target).map_err(|e| e.to_string())?.collect();
@@ -103,7 +111,7 @@ pub fn property() -> Property {
         id: "C03",
         subchecks: vec![SubCheck {
             name: "gradual-vs-oneshot-performance",
-            rule: "G-MAP (all modes + converts, <=40 objects) x G-DIFF (mods in all representations incl. lazer Classic, lazer flag unset/true/false, clock rates, overrides) x walk of 1-12 steps mixing next, nth(k<=4), last x per-step score state (2/3 consistent with the prefix reached, 1/3 arbitrary counts up to 2N). Oracle: every Some(attrs) is same-value-equal (pp, all components, effective miss count, deviation, embedded difficulty) to ModePerformance::new(&map).difficulty(D).passed_objects(i).state(s).calculate() where i is the object count the returned difficulty reports; None iff nothing remained. Non-trivial: >=2 successful steps, a state with non-300 judgements or inconsistent with the prefix, pp>0 at some step.",
+            rule: "G-MAP (all modes + converts, <=40 objects) x G-DIFF (mods in all representations incl. lazer Classic, lazer flag unset/true/false, clock rates, overrides) x a preset passed_objects on the calculator's Difficulty in a quarter of the cases x walk of 1-12 steps mixing next, nth(k<=4), last x per-step score state (2/3 consistent with the prefix reached, 1/3 arbitrary counts up to 2N). Oracle: every Some(attrs) is same-value-equal (pp, all components, effective miss count, deviation, embedded difficulty) to ModePerformance::new(&map).difficulty(D).passed_objects(i).state(s).calculate() where i is the object count the returned difficulty reports; None iff nothing remained. Non-trivial: >=2 successful steps, a state with non-300 judgements or inconsistent with the prefix, pp>0 at some step.",
             quick: 60_000,
             thorough: 300_000,
             tape_len: 1500,
